@@ -26,8 +26,9 @@ def lemmas():
 EXPECTED_CLAUSES = ["_add_dir_watch.post[recursive: every directory found under the root is watched", "_add_dir_watch.post[non-recursive: only the root is watched]", "_add_watch.post[path -> descriptor recorded",
                     "read_events.record[IN_CREATE of a directory under a recursive watch", "read_events.record[second half of the rename of a watched directory", "read_events.record[IN_IGNORED",
                     "read_events.loop6.preserved[every visited key below the old path is re-keyed by prefix substitution", "read_events.loop6.preserved[keys outside both trees are untouched]",
-                    "read_events.record[watches are added only by a recursive instance", "lemma[replace(a, b, 1) on a string with prefix a is prefix substitution]"]
+                    "read_events.record[watches are added only by a recursive instance", "read_events.loop5.preserved[move records of earlier batches are kept", "lemma[replace(a, b, 1) on a string with prefix a is prefix substitution]"]
 CANARIES = [
+    {"name": "forget the move records at the start of every batch", "file": FILE, "fn": "Inotify.read_events", "find": "            event_list = []\n", "replace": "            event_list = []\n            self._moved_from_events = {}\n"},
     {"name": "drop `if recursive:` in _add_dir_watch", "file": FILE, "fn": "Inotify._add_dir_watch", "find": "        if recursive:\n", "replace": "        if True:\n"},
     {"name": "re-key with an unbounded replace (the repaired defect)", "file": FILE, "fn": "Inotify.read_events", "find": "_path.replace(move_src_path, inotify_event.src_path, 1)", "replace": "_path.replace(move_src_path, inotify_event.src_path)"},
     {"name": "re-key only _wd_for_path (forget _path_for_wd)", "file": FILE, "fn": "Inotify.read_events", "find": "                                    self._path_for_wd[moved_wd] = _move_to_path\n", "replace": ""},
